@@ -74,6 +74,11 @@ def run(chk):
         if r["kind"] == "rational" and len(r["before"]) > 22:
             chk.nontrivial(r["before"])
     chk.cov["records_by_kind"] = kinds
+    for k in ("unit", "compound", "rational", "constant"):
+        for r in recs:
+            if r["kind"] == k:
+                chk.sample({x: r[x] for x in r if x != "id"})
+                break
     chk.cov["shipped_constants_decoded"] = info["constants"]
     derived_seen = len({r["key"] for r in recs if r["kind"] == "unit" and r.get("derived")})
     chk.cov["derived_units_checked"] = derived_seen
